@@ -101,6 +101,14 @@ N_OnlyMember == <<"O","n","l","y","M","e","m","b","e","r">>
 OnlyKeyT == Struct(N_OnlyKey, <<I_, S_>>, <<F_x, F_y>>)
 OnlyElemT == Struct(N_OnlyElem, <<S_>>, <<F_name>>)
 OnlyMemberT == Struct(N_OnlyMember, <<Sc("b")>>, <<F_x>>)
+\* a structure of pool B that carries a NAME pool A uses for another structure (interfaces are parsed one
+\* after the other by one process: a declaration must not outlive the text it was read from)
+EmptyBT == Struct(N_Empty, <<I_, S_>>, <<F_x, F_y>>)
+\* two structures whose names differ by the case of the first letter only
+N_Stamp == <<"S","t","a","m","p">>
+N_stamp == <<"s","t","a","m","p">>
+StampT == Struct(N_Stamp, <<I_>>, <<F_x>>)
+stampT == Struct(N_stamp, <<S_>>, <<F_y>>)
 
 (***************************************************************************)
 (* Pools.  Parameter names include Go keywords and names the generators     *)
@@ -145,6 +153,9 @@ PoolB ==
         Method(301, "Deep", <<Prm("c", Map(Sc("b"), Sc("d")))>>, Void, "plain"),     \* same name, other case
         Method(307, "positions", <<Prm("byKey", Map(OnlyKeyT, List(OnlyElemT)))>>,
                List(Map(S_, Tuple(<<OnlyMemberT, I_>>))), "plain"),
+        Method(308, "otherEmpty", <<Prm("e", EmptyBT)>>, List(EmptyBT), "plain"),
+        Method(309, "stamps", <<Prm("a", StampT), Prm("b", stampT)>>, List(stampT), "plain"),
+        Signal(310, "stamped", <<Prm("P0", stampT), Prm("P1", StampT)>>, FALSE, "plain"),
         Signal(302, "scalars", [k \in 1..15 |-> Prm("P" \o ToString(k - 1), Sc(ScalarSeq[k]))], FALSE, "plain"),
         Signal(86, "traceObject", <<Prm("P0", OuterT)>>, FALSE, "plain"),
         Property(303, "table", <<Prm("P0", Map(S_, List(PointT)))>>, FALSE, "plain"),
